@@ -32,7 +32,7 @@ POOL = 4
 BATCH = 25
 SOFT = 8           # CPU seconds, one program: a run that exceeds it is a suspect (stacks recorded)
 NREPS = 2          # suspects confirmed with the hard bound per known finding (pinned input first)
-MODBOUND = 30      # CPU seconds, module of 25 programs: beyond it the analysis is re-run program by program
+MODBOUND = 20      # CPU seconds, module of 25 programs: beyond it the analysis is re-run program by program
 
 CONFIG_TMPL = """options:
   log-level: 1
@@ -294,8 +294,8 @@ def run(ctx):
     thorough = ctx.tier == "thorough"
     rnd = random.Random(ctx.seed)
     bins = ctx.build(["crashrun"])
-    kf = ctx.kf or local_known()
-    HARD = 120 if thorough else 60      # CPU seconds per analysis run (median of a module of 25 programs: < 3 s)
+    kf = local_known() or ctx.kf      # the per-property file is the source; known_findings.json is assembled from it
+    HARD = 120 if thorough else 45      # CPU seconds per analysis run (median of a module of 25 programs: < 3 s)
     rn = Runner(ctx, bins, HARD)
 
     # ---- 1. call-graph shapes from TLC ----------------------------------------------------------------------
@@ -328,7 +328,7 @@ def run(ctx):
     sim = shapes_run("sim", 3, 5, 5, 2, ALL, simulate=1000 if thorough else 60)
     sim = sorted({optlib.shape_key(r): r for r in sim if optlib.shape_key(r) not in shapes}.items())
     rnd.shuffle(sim)
-    sim = sim[: (1500 if thorough else 100)]
+    sim = sim[: (1500 if thorough else 40)]
     for k, rec in sim:
         shapes[k] = rec
     # similar programs next to each other: failures cluster in few modules
@@ -342,11 +342,13 @@ def run(ctx):
     two = [list(c) for c in chains if len(c) == 2]
     rest = [list(c) for c in chains if len(c) > 2] + [list(c) for c in simchains]
     if not thorough:
-        # quick: every chain of one decorated step, a seeded sample of the two-step chains, the simulated ones
+        # quick: seeded samples of the one-step (decorated), two-step and longer chains
+        rnd.shuffle(one)
+        one = one[:150]
         rnd.shuffle(two)
-        two = two[:120]
+        two = two[:60]
         rnd.shuffle(rest)
-        rest = rest[:60]
+        rest = rest[:40]
     else:
         rnd.shuffle(rest)
         rest = rest[:1500]
@@ -412,7 +414,7 @@ def run(ctx):
     # field-sensitive runs: a seeded sample of the programs
     fs = list(progs)
     rnd.shuffle(fs)
-    fs = fs[: (800 if thorough else 120)]
+    fs = fs[: (800 if thorough else 100)]
     for p in fs:
         p.req = p.req + SINGLE_ANALYSES
 
